@@ -21,6 +21,7 @@ class SimFS:
         self.calls = {"read": 0, "write": 0, "truncate": 0, "flush": 0, "seek": 0}
         self.op_calls = 0  # low-level read/write/truncate/flush calls within the current operation
         self.fault_at = None  # (call index within operation, errno, kinds)
+        self.kind_log = None  # when a list: kinds of the low-level calls of the current operation (dry runs)
         self.faults_fired: list = []
         self.bytes_written = 0
 
@@ -33,8 +34,10 @@ class SimFS:
         if kind == "seek":
             return
         self.op_calls += 1
+        if self.kind_log is not None:
+            self.kind_log.append(kind)
         fa = self.fault_at
-        if fa is not None and self.op_calls == fa[0] and kind in fa[2]:
+        if fa is not None and self.op_calls >= fa[0] and kind in fa[2]:  # first matching call at or after the armed index
             self.fault_at = None
             self.faults_fired.append((kind, fa[1], path))
             raise OSError(fa[1], os.strerror(fa[1]), path)
